@@ -52,11 +52,11 @@ def p_total(t):
 
 def run(ctx):
     rng = ctx.rng
-    texts = [near_miss_text(rng) for _ in range(ctx.n(6000, 100000))]
-    texts += [G.control_text(rng) for _ in range(ctx.n(4000, 80000))]
-    texts += [emailish_text(rng) for _ in range(ctx.n(3000, 40000))]
-    texts += [G.unicode_text(rng, 60) for _ in range(ctx.n(2000, 30000))]
-    texts += [G.corrupt_doc(rng, D.render(rng, D.document(rng))) for _ in range(ctx.n(2000, 30000))]
+    texts = [near_miss_text(rng) for _ in range(ctx.n(4500, 60000))]
+    texts += [G.control_text(rng) for _ in range(ctx.n(3000, 50000))]
+    texts += [emailish_text(rng) for _ in range(ctx.n(2500, 30000))]
+    texts += [G.unicode_text(rng, 60) for _ in range(ctx.n(1500, 20000))]
+    texts += [G.corrupt_doc(rng, D.render(rng, D.document(rng))) for _ in range(ctx.n(1500, 20000))]
     texts += ['License-1: a\nLicense: b\nLicense: c\n', 'Files: x\nFiles-1: y\nFiles: z', 'Files: a\nExtra-Data: x\n',
               'Files: a\nLine-Numbers-By-Field: x\n', 'Content-Type: multipart/mixed; boundary="x"\n\n--x\n\nbody\n--x--\n',
               'Content-Type: message/rfc822\n\na: b\n', '', '\n', ' ', 'a', ':', 'License:\n\nUnknown:', 'Foo:\n\nBar:\n',
